@@ -513,4 +513,108 @@ theorem sum_flatMap {β : Type} (f : β → List α) (l : List β) :
 
 end field
 
+/-! ### calendar and monthly2daily helpers -/
+
+theorem daysInMonth_range (y : Int) (m : Nat) (h1 : 1 ≤ m) (h12 : m ≤ 12) :
+    28 ≤ daysInMonth y m ∧ daysInMonth y m ≤ 31 := by
+  have : m = 1 ∨ m = 2 ∨ m = 3 ∨ m = 4 ∨ m = 5 ∨ m = 6 ∨ m = 7 ∨ m = 8 ∨ m = 9 ∨ m = 10 ∨ m = 11 ∨ m = 12 := by
+    omega
+  rcases this with rfl | rfl | rfl | rfl | rfl | rfl | rfl | rfl | rfl | rfl | rfl | rfl <;>
+    simp [daysInMonth] <;> split <;> simp
+
+theorem monthAt_month_valid (y0 : Int) (m0 j : Nat) :
+    1 ≤ (monthAt y0 m0 j).2 ∧ (monthAt y0 m0 j).2 ≤ 12 := by
+  simp only [monthAt]
+  omega
+
+theorem ndaysAt_pos (y0 : Int) (m0 j : Nat) : 0 < ndaysAt y0 m0 j := by
+  have h := monthAt_month_valid y0 m0 j
+  have := daysInMonth_range (monthAt y0 m0 j).1 (monthAt y0 m0 j).2 h.1 h.2
+  unfold ndaysAt
+  omega
+
+theorem monthLengths_length (y0 : Int) (m0 k : Nat) : (monthLengths y0 m0 k).length = k := by
+  simp [monthLengths]
+
+theorem monthLengths_getElem (y0 : Int) (m0 k j : Nat) (h : j < (monthLengths y0 m0 k).length) :
+    (monthLengths y0 m0 k)[j] = ndaysAt y0 m0 j := by
+  simp [monthLengths]
+
+section m2dfield
+set_option linter.unusedSectionVars false
+variable {α : Type} [Field α] [LinearOrder α] [IsStrictOrderedRing α]
+
+/-- telescoping sum of consecutive differences -/
+theorem sum_range_diff (f : Nat → α) (n : Nat) :
+    ((List.range n).map fun j => f (j + 1) - f j).sum = f n - f 0 := by
+  induction n with
+  | zero => simp
+  | succ n ih => rw [List.range_succ, List.map_append, List.sum_append, ih]; simp
+
+/-- the cumulative cubic starts at 0 … -/
+theorem cum_zero (m : Month α) : cum m 0 = 0 := by
+  simp [cum, polyval]
+
+/-- … and ends at the monthly value, whatever the derivative constraints `c1`, `c2`
+(the columns of `Mi` sum to `(1,0,0)`) -/
+theorem cum_end (m : Month α) (hn : 0 < m.n) : cum m m.n = m.y := by
+  have : (m.n : α) ≠ 0 := by exact_mod_cast hn.ne'
+  simp only [cum, polyval, coefs, div_self this, Nat.cast_ofNat]
+  ring
+
+theorem dycTail_length : ∀ (u : List α), (dycTail u).length = u.length
+  | [] => rfl
+  | [_] => rfl
+  | a :: b :: r => by simp [dycTail, dycTail_length (b :: r)]
+
+theorem dyc_length (u : List α) (hu : u ≠ []) : (dyc u).length = u.length + 1 := by
+  cases u with
+  | nil => exact absurd rfl hu
+  | cons a r => simp [dyc, dycTail_length]
+
+/-- the constraint set-up keeps the monthly values and lengths -/
+theorem cubicInit_yn (ys : List α) (ns : List Nat) (h : ys.length = ns.length) :
+    (cubicInit ys ns).map (fun m => (m.y, m.n)) = ys.zip ns := by
+  unfold cubicInit
+  simp only
+  generalize hc1 : List.zipWith (fun (d : α) (n : Nat) => d * (n : α))
+    (dyc (List.zipWith (fun (y : α) (n : Nat) => y / (n : α)) ys ns)) ns = c1
+  generalize hc2 : List.zipWith (fun (d : α) (n : Nat) => d * (n : α))
+    (dyc (List.zipWith (fun (y : α) (n : Nat) => y / (n : α)) ys ns)).tail ns = c2
+  have hu : (List.zipWith (fun (y : α) (n : Nat) => y / (n : α)) ys ns).length = ys.length := by
+    simp [h]
+  have hl1 : c1.length = ys.length := by
+    by_cases hy : ys = []
+    · subst hy; subst hc1; simp [dyc]
+    · have hne : List.zipWith (fun (y : α) (n : Nat) => y / (n : α)) ys ns ≠ [] := by
+        intro e; rw [e] at hu; exact hy (List.length_eq_zero_iff.mp hu.symm)
+      rw [← hc1, List.length_zipWith, dyc_length _ hne, hu, ← h]; omega
+  have hl2 : c2.length = ys.length := by
+    by_cases hy : ys = []
+    · subst hy; subst hc2; simp [dyc]
+    · have hne : List.zipWith (fun (y : α) (n : Nat) => y / (n : α)) ys ns ≠ [] := by
+        intro e; rw [e] at hu; exact hy (List.length_eq_zero_iff.mp hu.symm)
+      rw [← hc2, List.length_zipWith, List.length_tail, dyc_length _ hne, hu, ← h]; omega
+  apply List.ext_getElem
+  · simp [hl1, hl2, h]
+  · intro i h1 h2
+    simp
+
+theorem sweepGo_yn : ∀ (rest : List (Month α)) (cur : Month α),
+    (sweepGo cur rest).map (fun m => (m.y, m.n)) = (cur :: rest).map (fun m => (m.y, m.n))
+  | [], cur => by simp [sweepGo]
+  | nxt :: rest, cur => by
+    simp only [sweepGo, List.map_cons]
+    rw [sweepGo_yn rest]
+    simp
+
+/-- the continuity sweep only rewrites derivative constraints -/
+theorem sweep_yn (ms : List (Month α)) :
+    (sweep ms).map (fun m => (m.y, m.n)) = ms.map (fun m => (m.y, m.n)) := by
+  cases ms with
+  | nil => rfl
+  | cons m rest => simp [sweep, sweepGo_yn]
+
+end m2dfield
+
 end HydroVerif.C08
